@@ -36,10 +36,9 @@ pub fn message_seeds(entries: &[Entry], recs: &[Rec], thorough: bool) -> Vec<See
         };
         match m.to_vec() {
             Ok(b) => out.push(Seed { tag: format!("enc:{}", r.tag), bytes: b }),
-            Err(e) => {
-                eprintln!("MACHINERY-FAILURE seed {} does not encode: {e}", r.tag);
-                std::process::exit(2);
-            }
+            // depends on the code under test: not a harness failure. The seed is dropped here; C02 judges
+            // "a valid record does not encode" (`encode-failed`)
+            Err(e) => eprintln!("note: seed {} dropped, hickory does not encode it: {e}", r.tag),
         }
     }
     // (2) hand-assembled uncompressed messages from the RFC wire forms
@@ -79,7 +78,9 @@ pub fn message_seeds(entries: &[Entry], recs: &[Rec], thorough: bool) -> Vec<See
         let mut m = base(0x4000 + i as u16);
         m.add_answer(pick(i));
         m.set_edns(e);
-        out.push(Seed { tag: format!("edns:{tag}"), bytes: m.to_vec().expect("edns seed") });
+        if let Ok(b) = m.to_vec() {
+            out.push(Seed { tag: format!("edns:{tag}"), bytes: b });
+        }
     }
     for (i, (tag, t)) in tsig_variants().into_iter().enumerate() {
         let mut m = base(0x5000 + i as u16);
@@ -88,7 +89,9 @@ pub fn message_seeds(entries: &[Entry], recs: &[Rec], thorough: bool) -> Vec<See
             m.set_edns(edns_variants()[1].1.clone());
         }
         m.set_signature(t);
-        out.push(Seed { tag: format!("tsig:{tag}"), bytes: m.to_vec().expect("tsig seed") });
+        if let Ok(b) = m.to_vec() {
+            out.push(Seed { tag: format!("tsig:{tag}"), bytes: b });
+        }
     }
     // (5) three-record messages: answer / authority / additional
     let step = if thorough { 1 } else { 4 };
@@ -127,6 +130,36 @@ pub fn rdata_seeds(entries: &[Entry]) -> Vec<(String, u16, Vec<u8>)> {
     // OPT and TSIG RDATA (not part of the record alphabet: they travel as Edns / signature)
     v.push(("OPT/ecs+nsid".into(), 41, vec![0, 8, 0, 7, 0, 1, 24, 0, 192, 0, 2, 0, 3, 0, 3, b'n', b's', b'1']));
     v.push(("OPT/dau".into(), 41, vec![0, 5, 0, 2, 13, 15]));
+    // one instance of every option code (RFC 6891 registry 1..=15, 26946): the codes the decoder has an arm
+    // for must be among them (self-check in the checks); client subnet in both address families
+    v.push((
+        "OPT/ecs-v6+cookie+keepalive+padding".into(),
+        41,
+        [
+            &[0u8, 8, 0, 9, 0, 2, 40, 48, 0x20, 0x01, 0x0d, 0xb8, 0xab][..],
+            &[0, 10, 0, 8, 1, 2, 3, 4, 5, 6, 7, 8],
+            &[0, 11, 0, 2, 0, 100],
+            &[0, 12, 0, 3, 0, 0, 0],
+        ]
+        .concat(),
+    ));
+    v.push((
+        "OPT/llq+ul+dhu+n3u+expire+chain+keytag+ede+nsid".into(),
+        41,
+        [
+            &[0u8, 1, 0, 2, 0, 1][..],
+            &[0, 2, 0, 4, 0, 0, 14, 16],
+            &[0, 6, 0, 2, 1, 2],
+            &[0, 7, 0, 1, 1],
+            &[0, 9, 0, 4, 0, 0, 0, 60],
+            &[0, 13, 0, 3, 1, b'z', 0],
+            &[0, 14, 0, 2, 0x30, 0x39],
+            &[0, 15, 0, 3, 0, 6, b'x'],
+            &[0, 3, 0, 0],
+            &[0, 0, 0, 0],
+        ]
+        .concat(),
+    ));
     let mut tsig = wn("hmac-sha256.");
     tsig.extend_from_slice(&[0, 0, 0x65, 0x53, 0xf1, 0x00, 1, 44, 0, 4, 1, 2, 3, 4, 0x12, 0x34, 0, 0, 0, 0]);
     v.push(("TSIG/sha256".into(), 250, tsig));
